@@ -107,7 +107,8 @@ def real_models(names, fluxes, distances=None, extended=None):
 # independent specification (documented transform; works on floats and on symbolic values)
 
 def slog10(x):
-    return C.s_log10(x) if C.is_sym(x) else math.log10(x)
+    # the same routine the numpy shim uses for concrete values (numpy's log10, not math.log10: they can differ by an ulp)
+    return C.s_log10(x) if (C.is_sym(x) or C.has_ctx()) else float(np.log10(np.float64(x)))
 
 
 def spec_transform(flag, F, E):
